@@ -75,6 +75,17 @@ Proof.
 Qed.
 
 
+(* releasing held-back closes changes neither ids, peers nor the closing flags of the tasks *)
+Lemma ungate_in s p older l t : In t (ungate s p older l) ->
+  exists t0, In t0 l /\ t_id t = t_id t0 /\ t_peer t = t_peer t0 /\ t_closing t = t_closing t0.
+Proof.
+  unfold ungate. intros H. apply in_map_iff in H. destruct H as (t0 & E & H0). exists t0.
+  destruct ((t_peer t0 =? p) && _); subst t; cbn; auto.
+Qed.
+
+Lemma ungate_ids s p older l : map t_id (ungate s p older l) = map t_id l.
+Proof. unfold ungate. rewrite map_map. apply map_ext. intros t. destruct ((t_peer t =? p) && _); auto. Qed.
+
 (* state after a list of events (None: stuck on the way) *)
 Fixpoint exec (c : cfg) (s : st) (l : list op) : option st :=
   match l with
